@@ -82,7 +82,7 @@ type replayFile struct {
 }
 
 type replayObj struct {
-	Kind      string    `json:"kind"` // call | abs | aux | iter
+	Kind      string    `json:"kind"` // call | abs | aux | iter | joinclean
 	OS        string    `json:"os"`
 	Func      string    `json:"func"`
 	Check     string    `json:"check,omitempty"`
@@ -105,6 +105,10 @@ func (d *driver) replayObject(f *finding) replayObj {
 		r.Kind = "iter"
 	}
 
+	if r.Check == joinCleanCheck {
+		r.Kind = "joinclean"
+	}
+
 	r.Reference = referenceName(o)
 
 	if len(f.ex) > 0 {
@@ -124,6 +128,12 @@ func goTest(o *osCtx, f *finding, e example) string {
 
 	switch f.fn {
 	case fClean, fDir, fBase, fFromSlash, fToSlash, fJoin0, fJoin1, fJoin2, fJoin3, fVolumeName:
+		if f.sig["check"] == joinCleanCheck {
+			body = fmt.Sprintf("// Join is Clean of the concatenation of its elements\n\tif got, want := %s, vfs.Clean(%q); got != want {\n\t\tt.Errorf(\"got %%q, want %%q\", got, want)\n\t}", call, o.joinRaw(e.Args))
+
+			break
+		}
+
 		if f.fn == fVolumeName {
 			call = fmt.Sprintf("avfs.VolumeName(vfs, %q)", e.Args[0])
 		}
@@ -231,6 +241,8 @@ func (d *driver) replay(path string) int {
 			switch rf.Replay.Kind {
 			case "aux":
 				w.aux(o, e.Args[0])
+			case "joinclean":
+				w.joinAny(o, e.Args)
 			case "iter":
 				var repl []string
 				if len(e.Args) > 1 {
